@@ -269,7 +269,7 @@ ck.assumptions.append('V3: wide::i64x4 is modelled by its lane-wise contract (ne
 I64OPS = (('lt', 0, lambda x, t: x < t), ('le', 1, lambda x, t: x <= t), ('gt', 2, lambda x, t: x > t), ('ge', 3, lambda x, t: x >= t),
           ('eq', 4, lambda x, t: x == t), ('ne', 5, lambda x, t: x != t))
 for oname, opc, fn in I64OPS:
-    for n in sorted({0, 3, 4, NF}):
+    for n in (sorted({0, 3, 4, NF}) if T == 'quick' else (0, 3, 4, 5, 8)):     # 8 = two full SIMD chunks; 3 forks per lane for le/ge
         xs = [z3.BitVec(f'y{i}', 64) for i in range(n)]
         tv = z3.BitVec('ithr', 64)
         pre = z3.BitVec('ipre', 64)
